@@ -8,6 +8,7 @@ import (
 	"fmt"
 	"hash/fnv"
 	"reflect"
+	"regexp"
 	"runtime"
 	"sort"
 	"strconv"
@@ -660,7 +661,7 @@ func parsedCase(s seed, label string, text []byte, opts optSet) fcase {
 
 // stringFields collects every settable exported string field reachable from v.
 func stringFields(v reflect.Value, path string, out *[]namedField, depth int) {
-	if depth > 8 {
+	if depth > 16 {
 		return
 	}
 	switch v.Kind() {
@@ -707,6 +708,8 @@ type namedField struct {
 var indexRE = strings.NewReplacer("0", "", "1", "", "2", "", "3", "", "4", "", "5", "", "6", "", "7", "", "8", "", "9", "")
 
 func collapse(path string) string { return indexRE.Replace(path) }
+
+var indexOnlyRE = regexp.MustCompile(`\[\d+\]`)
 
 // tweak modifies fields of an API-built valid file in ways a caller of the
 // public API can (blank padding, case, emptiness, over-long values) and
@@ -898,6 +901,76 @@ func run(t *T) {
 				return m
 			},
 		}, r.Fork(6))
+	}
+
+	// (4) systematic: one generator file per SEC code (every category), every distinct exported string field of it x a
+	// fixed set of values a caller of the API may store there (padded, prefixed by a letter or a zero, lower case,
+	// doubled, empty): getters that "normalise" the stored value while rendering show up whatever the random
+	// tweaks of (3) happen to pick
+	sr := t.R.Fork(4)
+	transforms := []struct {
+		name string
+		f    func(string) string
+	}{
+		{"lead-blank", func(x string) string { return " " + x }}, {"trail-blank", func(x string) string { return x + " " }},
+		{"prefix-R", func(x string) string { return "R" + x }}, {"prefix-0", func(x string) string { return "0" + x }},
+		{"lower", strings.ToLower}, {"doubled", func(x string) string { return x + x + "X" }}, {"empty", func(string) string { return "" }},
+	}
+	for si, sec := range secs {
+		o := gen.Opts{SECs: []string{sec}, Categories: gen.AllCategories(), MinBatches: 2, MaxBatches: 3, MaxEntries: 3, MaxAddenda: 2}
+		saved := *sr.Fork(uint64(si))
+		mkGen := func() *ach.File {
+			st := saved
+			f, err := gen.File(&st, o)
+			if err != nil {
+				return nil
+			}
+			return f
+		}
+		probe := mkGen()
+		if probe == nil {
+			continue
+		}
+		var fields []namedField
+		stringFields(reflect.ValueOf(probe), "", &fields, 0)
+		seenPath := map[string]bool{}
+		for fi, nf := range fields {
+			cp := indexOnlyRE.ReplaceAllString(nf.path, "[]")
+			if seenPath[cp] {
+				continue
+			}
+			seenPath[cp] = true
+			for ti, tf := range transforms {
+				fi, tf, path := fi, tf, nf.path
+				var note string
+				mk := func() *ach.File {
+					f := mkGen()
+					if f == nil {
+						return nil
+					}
+					var fs []namedField
+					stringFields(reflect.ValueOf(f), "", &fs, 0)
+					if fi >= len(fs) || fs[fi].path != path {
+						return nil
+					}
+					v := tf.f(fs[fi].v.String())
+					fs[fi].v.SetString(v)
+					note = fmt.Sprintf("%s=%q", path, v)
+					return f
+				}
+				add(fcase{
+					source: "api", class: "api-sweep/" + sec + "/" + tf.name, key: "api-sweep|" + sec + "|" + cp + "|" + tf.name,
+					mk: mk,
+					input: func() map[string]any {
+						m := FileInput(mkGen())
+						m["kind"] = "valid generator file, then one exported string field modified through the API"
+						mk()
+						m["modifications_after_building"] = []string{note}
+						return m
+					},
+				}, sr.Fork(uint64(1000000+si*100000+fi*10+ti)))
+			}
+		}
 	}
 
 	rs := parallel(len(cases), func(i int) caseResult { return evalCase(cases[i], rands[i]) })
